@@ -24,7 +24,7 @@ def op_coq(op):
 
 class Driver(concdrv.ConcMixin):
     PID = 'C10'
-    CONC = [('alloc', concdrv.gen_alloc, 'conc_alloc_ok', 60, 800)]
+    CONC = [('alloc', concdrv.gen_alloc, 'conc_alloc_ok', 120, 1200)]
     MODEL_TARGETS = ['Model/ChanAlloc.vo']
     SPEC = dict(
         header='From AV Require Import Lib.Base Model.ChanAlloc.',
